@@ -1,4 +1,4 @@
-(* C05 — comparisons are exact.  (Hash agreement is decided by correspondence against the interpreter's hash().)
+(* C05 — comparisons are exact and hashes follow the interpreter's numeric hash rule (proved below; agreement with the running interpreter's hash() on int/float/complex is additionally decided by correspondence).
    cmp_ok c x y: c = -1 /\ x < y, or c = 0 /\ x = y, or c = 1 /\ y < x. *)
 From Coq Require Import ZArith Reals.
 From MP Require Import Algo.Base Algo.Libmpf Spec.Mpf Spec.Round Proofs.Cmp.
@@ -28,3 +28,22 @@ Proof. exact mpf_cmp_nan_false. Qed.
 
 Example C05_witness : mpf_cmp (Mpf 0 5 (-1) 3) (Mpf 0 3 0 2) = -1.   (* 2.5 < 3: same top bit, decided by the subtraction *)
 Proof. reflexivity. Qed.
+
+(* ---- hash part (pure Z, axiom-free): equal values hash equally across int / mpf / mpc ---- *)
+From MP Require Import Algo.Libmpc Proofs.Hash.
+Theorem C05_hash_int : forall x, regular x -> 0 <= mexp x ->
+  mpf_hash x = py_int_hash ((if msign x =? 0 then 1 else -1) * (mman x * 2 ^ mexp x)).
+Proof. exact mpf_hash_int. Qed.
+Print Assumptions C05_hash_int.
+Theorem C05_hash_dyadic : forall x, regular x -> mexp x < 0 ->
+  exists h, 0 <= h < HASH_MODULUS /\ (h * 2 ^ (- mexp x)) mod HASH_MODULUS = mman x mod HASH_MODULUS /\
+    mpf_hash x = (let s := if msign x =? 0 then h else - h in if s =? -1 then -2 else s).
+Proof. exact mpf_hash_dyadic. Qed.
+Theorem C05_hash_dyadic_unique : forall h1 h2 k m, 0 <= k -> 0 <= h1 < HASH_MODULUS -> 0 <= h2 < HASH_MODULUS ->
+  (h1 * 2 ^ k) mod HASH_MODULUS = m mod HASH_MODULUS -> (h2 * 2 ^ k) mod HASH_MODULUS = m mod HASH_MODULUS -> h1 = h2.
+Proof. exact dyadic_hash_unique. Qed.
+Theorem C05_mpc_hash_real : forall x, fincanon x -> mpc_hash (x, fzero) = mpf_hash x.
+Proof. exact mpc_hash_real. Qed.
+Print Assumptions C05_mpc_hash_real.
+Example C05_hash_witness : mpf_hash (Mpf 1 1 0 1) = -2 /\ mpf_hash (Mpf 0 1 (-1) 1) = 2 ^ 60.   (* hash(-1) = -2, hash(0.5) = 2^60 *)
+Proof. split; vm_compute; reflexivity. Qed.
